@@ -51,7 +51,9 @@ def gen_form(rng, max_parts=4, boundary=None):
             p["filename"], p["latin1_fn"] = rng.choice(["caf\xe9.txt", "\xf1.bin"]), True
         parts.append(p)
     return {"boundary": boundary, "parts": parts, "preamble": rng.choice([b"", b"", b"preamble", b"pre\r\namble"]),
-            "epilogue": rng.choice([b"", b"", b"epilogue\r\n", b"\r\n"]), "pad": rng.choice([b"", b"", b" ", b" \t"])}
+            "epilogue": rng.choice([b"", b"", b"epilogue\r\n", b"\r\n"]), "pad": rng.choice([b"", b"", b" ", b" \t"]),
+            # RFC 2046: the line break after the close delimiter belongs to the optional epilogue - a body may end right after "--"
+            "tail": rng.choice(["crlf", "crlf", "crlf", "none"])}
 
 
 def encode(form):
@@ -76,7 +78,9 @@ def encode(form):
         out += p["content"]
         spans.append((start, len(out), p["filename"] is not None))
         out += b"\r\n"
-    out += b"--" + b + b"--" + pad + b"\r\n" + form.get("epilogue", b"")
+    out += b"--" + b + b"--" + pad
+    if form.get("tail", "crlf") != "none":
+        out += b"\r\n" + form.get("epilogue", b"")
     return bytes(out), spans
 
 
